@@ -46,7 +46,24 @@ TARGETS = [
          selfattrs=[("value", "int")], ret="bytes", fallback="fun v => of_option (Seq.locktime_for_transaction v)"),
 ]
 
-COQTY = {"int": "Z", "bytes": "bytes", "hexbytes": "bytes", "bool": "bool", "int*int": "(Z * Z)", "unit": "unit"}
+TARGETS += [
+    dict(coq="src_add_magic_prefix", file="bitcoinutils/utils.py", qual="add_magic_prefix", params=[("message", "utf8")], ret="bytes",
+         fallback="fun m => of_option (Msg.add_magic_prefix m)"),
+    dict(coq="src_tagged_hash", file="bitcoinutils/utils.py", qual="tagged_hash", params=[("data", "bytes"), ("tag", "str")], ret="bytes",
+         sha=True, fallback="fun sha256 data tag => Ok (Sighash.tagged_hash sha256 data tag)"),
+    dict(coq="src_schnorr_tagged_hash", file="bitcoinutils/schnorr.py", qual="tagged_hash", params=[("tag", "str"), ("msg", "bytes")],
+         ret="bytes", sha=True, register=False, fallback="fun sha256 tag msg => Ok (Sighash.tagged_hash sha256 msg tag)"),
+    dict(coq="src_tapbranch_tagged_hash", file="bitcoinutils/utils.py", qual="tapbranch_tagged_hash",
+         params=[("thashed_a", "bytes"), ("thashed_b", "bytes")], ret="bytes", sha=True,
+         fallback="fun sha256 a b => Ok (Taproot.tapbranch_tagged_hash sha256 a b)"),
+    dict(coq="src_tapleaf_tagged_hash", file="bitcoinutils/utils.py", qual="tapleaf_tagged_hash", params=[("script", "script")],
+         ret="bytes", sha=True, fallback="fun sha256 s => of_option (Taproot.tapleaf_tagged_hash sha256 s)"),
+]
+
+COQTY = {"int": "Z", "bytes": "bytes", "hexbytes": "bytes", "bool": "bool", "int*int": "(Z * Z)", "unit": "unit",
+         "utf8": "bytes",          # a str that the code only ever .encode("utf-8")s: the model takes those bytes
+         "str": "string",          # a str used as a tag: str.encode() of an ASCII tag is Sighash.str_bytes
+         "script": "(list tok)"}   # a Script object: its .to_bytes() is the model's Script.to_bytes (tied by C02)
 STRUCT = {"<B": 1, "<H": 2, "<I": 4, "<L": 4, "<Q": 8, "B": 1}
 
 
@@ -103,6 +120,8 @@ class Tr:
                 return [], "(%d)" % v, "int"
             if isinstance(v, bytes):
                 return [], "[" + "; ".join(str(b) for b in v) + "]", "bytes"
+            if isinstance(v, str) and v.isascii() and '"' not in v and v.isprintable():
+                return [], '"%s"%%string' % v, "str"
             if v is None:
                 return [], "NONE", "none"
             raise Unsupported("constant %r" % (v,))
@@ -178,6 +197,10 @@ class Tr:
                      ast.Eq: "(%s =? %s)", ast.NotEq: "(negb (%s =? %s))"}
                 if op in m:
                     return p1 + p2, m[op] % (a, b), "bool"
+            if ta == "bytes" and tb == "bytes" and op in (ast.Lt, ast.Gt):
+                return p1 + p2, ("(bytes_ltb %s %s)" % ((a, b) if op is ast.Lt else (b, a))), "bool"
+            if ta == "bytes" and tb == "bytes" and op in (ast.LtE, ast.GtE):       # a <= b  is  not (b < a)
+                return p1 + p2, ("(negb (bytes_ltb %s %s))" % ((b, a) if op is ast.LtE else (a, b))), "bool"
             if ta == "bytes" and tb == "bytes" and op in (ast.Eq, ast.NotEq):
                 s = "(py_bytes_eq %s %s)" % (a, b)
                 return p1 + p2, s if op is ast.Eq else "(negb %s)" % s, "bool"
@@ -267,6 +290,28 @@ class Tr:
             p, a, ta = self.expr(e.args[0])
             if ta != "bytes": raise Unsupported("%s of %s" % (f.id, ta))
             return p, a, "bytes"
+        # s.encode() / s.encode("utf-8")
+        if isinstance(f, ast.Attribute) and f.attr == "encode" and len(e.args) <= 1 and not e.keywords:
+            if e.args and not (isinstance(e.args[0], ast.Constant) and e.args[0].value in ("utf-8", "utf8")):
+                raise Unsupported("encoding")
+            p, a, ta = self.expr(f.value)
+            if ta == "utf8": return p, a, "bytes"
+            if ta == "str": return p, "(str_bytes %s)" % a, "bytes"
+            raise Unsupported("encode of %s" % ta)
+        # hashlib.sha256(x).digest()
+        if (isinstance(f, ast.Attribute) and f.attr == "digest" and not e.args and isinstance(f.value, ast.Call)
+                and isinstance(f.value.func, ast.Attribute) and f.value.func.attr == "sha256"
+                and isinstance(f.value.func.value, ast.Name) and f.value.func.value.id == "hashlib" and len(f.value.args) == 1):
+            if not self.t.get("sha"): raise Unsupported("sha256 in a function not declared to hash")
+            p, a, ta = self.expr(f.value.args[0])
+            if ta != "bytes": raise Unsupported("sha256 of %s" % ta)
+            return p, "(sha256 %s)" % a, "bytes"
+        # script.to_bytes(): the model's Script.to_bytes
+        if isinstance(f, ast.Attribute) and f.attr == "to_bytes" and not e.args and not e.keywords:
+            p, a, ta = self.expr(f.value)
+            if ta != "script": raise Unsupported("to_bytes() of %s" % ta)
+            t = self.fresh()
+            return p + [("opt", t, "Script.to_bytes %s" % a)], t, "bytes"
         # x.to_bytes(n, "little")
         if isinstance(f, ast.Attribute) and f.attr == "to_bytes":
             p, a, ta = self.expr(f.value)
@@ -302,13 +347,16 @@ class Tr:
         # a call of a function translated earlier: f(args) or self.f(args)
         name = f.id if isinstance(f, ast.Name) else (f.attr if isinstance(f, ast.Attribute) and isinstance(f.value, ast.Name) and f.value.id == "self" else None)
         if name in self.known:
-            coq, ptys, rty = self.known[name]
+            coq, ptys, rty = self.known[name][:3]
+            if len(self.known[name]) > 3 and self.known[name][3]:
+                if not self.t.get("sha"): raise Unsupported("call of a hashing function from a function not declared to hash")
+                coq = coq + " sha256"
             if len(e.args) != len(ptys) or e.keywords:
                 raise Unsupported("call arity of %s" % name)
             pre = []; args = []
             for a_, pt in zip(e.args, ptys):
                 p, a, ta = self.expr(a_)
-                if ta != ("bytes" if pt == "hexbytes" else pt): raise Unsupported("argument type in call of %s" % name)
+                if ta != {"hexbytes": "bytes", "utf8": "bytes"}.get(pt, pt): raise Unsupported("argument type in call of %s" % name)
                 pre += p; args.append(a)
             t = self.fresh()
             return pre + [("res", t, "%s %s" % (coq, " ".join(args)))], t, rty
@@ -427,7 +475,7 @@ def translate(target, repo, consts, known):
     # defaults are part of the interface: record them in the output for the tie theorems
     defaults = [ast.unparse(d) for d in args.defaults]
     tr = Tr(target, consts, known)
-    binders = []
+    binders = ["(sha256 : bytes -> bytes)"] if target.get("sha") else []
     for p, ty in target["params"]:
         tr.env[p] = (p + "_", "bytes" if ty == "hexbytes" else ty)
         binders.append("(%s_ : %s)" % (p, COQTY[ty]))
@@ -444,7 +492,7 @@ def main():
     consts = tables()
     out = ["(* GENERATED by harness/gen_src.py from the source files of the tree under test -- do not edit. *)",
            "From Coq Require Import String ZArith List Bool.",
-           "From BU Require Import Lib.Bytes Lib.PySem Gen.Tables Model.Varint Model.Script Model.Seq.",
+           "From BU Require Import Lib.Bytes Lib.PySem Gen.Tables Model.Varint Model.Script Model.Seq Model.Tx Model.Sighash Model.Msg Model.Taproot.",
            "Import ListNotations.", "Open Scope list_scope.", "Open Scope Z_scope.", "",
            ""]
     known = {}
@@ -463,8 +511,9 @@ def main():
             out.append("(* %s:%s NOT TRANSLATED (%s): falls back to the model *)" % (t["file"], t["qual"], str(e).replace("*)", "* )")))
             out.append("Definition %s := %s." % (t["coq"], t["fallback"]))
         out.append("")
-        known[t["qual"].split(".")[-1]] = (t["coq"], [ty for _, ty in t["params"]] + [ty for _, ty in t.get("selfattrs", [])], t["ret"])
-        if t.get("selfattrs"):
+        if t.get("register", True):
+            known[t["qual"].split(".")[-1]] = (t["coq"], [ty for _, ty in t["params"]] + [ty for _, ty in t.get("selfattrs", [])], t["ret"], t.get("sha", False))
+        if t.get("selfattrs") and t.get("register", True):
             known.pop(t["qual"].split(".")[-1])       # methods reading self attributes are not callable from translated code
     out.append("Definition untranslated : list string := [%s]." % "; ".join('"%s"%%string' % u for u in untranslated))
     # default argument values, as source text (an interface fact the tie theorems pin down)
